@@ -89,6 +89,25 @@ Theorem C07_pop_always_pops :
 Proof. exact pop_always_pops. Qed.
 Print Assumptions C07_pop_always_pops.
 
+(* Time limits are enforced promptly in a child too: a new context starts with its CPU counter AND its clock-check
+   threshold at 0, so the first request of a context that tracks time reads the clock, and from then on the clock is
+   read at least every 10000 ticks. *)
+Theorem C07_child_clock_read_at_first_request :
+  forall now0 d p now amt c',
+  let c := pushCtx now0 d p in
+  trackTime c = true -> 0 <= amt ->
+  requireCPU now amt c = ROk c' ->
+  ms (used c') = u64 (now - now0) /\ thr_ok c'.
+Proof. exact child_clock_read_at_first_request. Qed.
+Print Assumptions C07_child_clock_read_at_first_request.
+
+Theorem C07_clock_read_every_10000_ticks :
+  forall now amt c c',
+  trackTime c = true -> thr_ok c -> 0 <= amt -> 0 <= cpu (used c) -> cpu (used c) + amt < W ->
+  requireCPU now amt c = ROk c' -> thr_ok c'.
+Proof. exact thr_ok_step. Qed.
+Print Assumptions C07_clock_read_every_10000_ticks.
+
 Theorem C07_due_iff :
   forall c, due c = true <->
   (soft_stop c = true \/ atLimit (cpu (used c)) (cpu (soft c)) = true
